@@ -11,4 +11,12 @@ CLAIMED = {
         'batches except the last, prefix mask, zero padding with unchanged dtype/shape, minimal bucketed final size.',
    note='Trusted: numpy slicing/zeros/arange contracts, TABLE abstraction of Examples, per-example preprocessor hypothesis, '
         'pyvc VC generator and its Python-subset semantics; induction schema for the halving lemma.'),
+ 'C04': dict(
+   text='Unbounded proof that ShuffleRepeatBatchView.__init__ computes the documented step count (ceil/floor/min/None, stated '
+        'without division) and that the real refill loop of __iter__ emits exactly num_steps batches of exactly batch_size rows '
+        'whose index stream is (completed windows, each a permutation of 0..N-1 and each freshly shuffled) ++ (a prefix of the '
+        'current buffer); skip_shuffle gives the cyclic order; the generator state is created per iteration from the seed.',
+   note='Trusted: RandomState(seed) deterministic, shuffle returns a permutation (uninterpreted SHUF), numpy arange/zeros/slice '
+        'contracts, abstract IsPerm/InRange predicates with stated axioms; the two corollaries (coverage after ceil(N/B) batches, '
+        'usage counts differ by <= 1) are consequences of the window obligation, not separate obligations.'),
 }
